@@ -15,7 +15,8 @@
    dereferences ("" = all inside the instance's own live buffers). It never changes the expectation; it
    only names the defect family (finding key) when the implementation deviates at that step. *)
 EXTENDS IdSet, TLC, TLCExt, Json, IOUtils, CSV
-CONSTANTS NV, NSlots, MaxLen, WithMove
+CONSTANTS NV, NSlots, MaxLen, WithMove,
+          CloneDeep    \* TRUE: only histories `inserts into slot 0 ; clone 0 -> 1 ; at most two more operations` (deeper sets before the clone)
 Vals  == SubSeq(<<"a", "b", "c", "d">>, 1, NV)   \* the values that get inserted
 Probe == Vals \o <<"z">>                         \* the values that are looked up ("z" is never inserted)
 Impl == INSTANCE IdSetImpl WITH DeepClone <- FALSE
@@ -40,8 +41,16 @@ Init == /\ hist = <<>>
         /\ impl = Impl!InitImpl(NSlots)
         /\ exp = <<>>
 
+\* the shape of the deep-clone histories: the original grows (also by duplicate inserts) before it is cloned once
+Cloned == \E i \in 1..Len(hist) : hist[i].op = "clone"
+ClonePos == CHOOSE i \in 1..Len(hist) : hist[i].op = "clone"
+ShapeOK(op) == \/ ~CloneDeep
+               \/ (~Cloned /\ ((op.op = "insert" /\ op.s = 0 /\ Len(hist) < 4) \/ (op.op = "clone" /\ op.s = 0 /\ Len(hist) >= 2)))
+               \/ (Cloned /\ Len(hist) = ClonePos /\ op.s = 0 /\ op.op \in {"drop", "clear", "consume", "insert"})
+               \/ (Cloned /\ Len(hist) = ClonePos + 1 /\ op.s = 1 /\ op.op = "insert")
 Next == /\ Len(hist) < MaxLen
         /\ \E op \in Ops :
+             /\ ShapeOK(op)
              /\ Enabled(slots, op)
              /\ hist' = Append(hist, op)
              /\ slots' = Apply(slots, op)
@@ -60,7 +69,8 @@ OpName(op) == CASE op.op = "insert"  -> "i" \o ToString(op.s) \o op.v
                 [] op.op = "move"    -> "m" \o ToString(op.s) \o ToString(op.d)
 HistName[k \in 0..MaxLen] == IF k = 0 THEN "" ELSE HistName[k-1] \o (IF k > 1 THEN "." ELSE "") \o OpName(hist[k])
 
-Leaf == hist # <<>> /\ (Len(hist) = MaxLen \/ \A i \in 1..NSlots : ~slots[i].live)
+Leaf == hist # <<>> /\ (IF CloneDeep THEN Cloned /\ Len(hist) = ClonePos + 2
+                         ELSE Len(hist) = MaxLen \/ \A i \in 1..NSlots : ~slots[i].live)
 
 Case == [id |-> HistName[Len(hist)], kind |-> "idset", nslots |-> NSlots, probe |-> Probe,
          ops |-> hist, expect |-> exp, expect_status |-> "done"]
